@@ -323,7 +323,23 @@ pub fn run(ctx: &'static Ctx) -> (&'static str, Value, Vec<&'static str>) {
             st
         })
         .reduce(Stats::new, Stats::merge);
-    let mut stats = s1.merge(s2).merge(s3).merge(s4).merge(s4b).merge(s5);
+    // history: the whole operation set on different inputs back to back on one fresh thread
+    let hin: Vec<Vec<u8>> = vec![containers[0].1.clone(), containers[0].1[..40.min(containers[0].1.len())].to_vec(), vec![], family(29, 9), small[0].clone(), { let mut x = small[1].clone(); let n = x.len(); x.truncate(n * 2 / 3); x }, family(64, 6)];
+    let sh = history_check(
+        ctx,
+        "container_operations",
+        hin.len(),
+        3,
+        |i| {
+            let mut st = Stats::new();
+            let n = check_bytes(ctx, &hin[i], "history", &mut st);
+            let f = File::new(hin[i].clone());
+            let r = guarded(|| (f.records().len(), f.scan().is_ok(), Record::new(hin[i].clone()).decompress().map(|d| d.data().len()).ok()));
+            format!("{n}|{:?}", r)
+        },
+        |i| format!("input#{i}({} bytes)", hin[i].len()),
+    );
+    let mut stats = s1.merge(s2).merge(s3).merge(s4).merge(s4b).merge(s5).merge(sh);
     stats.sample(3, || json!({"origin": "length 5 family 2 ('BZ' at 4..6)", "bytes_hex": hex(&family(5, 2))}));
     stats.sample(3, || json!({"origin": "volume truncated", "container": containers[0].0, "len": containers[0].1.len()}));
     let cov = stats.coverage(
